@@ -4,3 +4,18 @@ claim('C01', 'model_checking', 'explicit-state BFS over (skipValue machine confi
 claim('C02', 'model_checking', 'explicit-state BFS over (skipValue machine configuration x reference PDA state) x all 256 next bytes; (ok, offset) vs reference vs json.Decoder',
       'Same state space as C01; on every node the (success, offset) pair of SkipValue is compared with the reference automaton and with json.Decoder, so every value in every context is followed by every possible byte.',
       'Same bounds as C01.', '5 C02')
+claim('C05', 'exploration', 'explicit-state BFS over the integer-token automaton (exact digit counts) x 256 bytes + complete enumeration of finite windows round every bound; oracle math/big',
+      'All six readers and Decode forms on every (state, byte) pair of the number grammar with exact digit counts 0..23, recovery exploration past forbidden bytes, and complete windows (both signs) round 2^31, 2^32, 2^63, 2^64, 10^17..10^20 and the 18/19/20-digit switch-overs.',
+      'Values outside the enumerated windows are reached only with the digits of shortest witnesses; 32-bit int/uint branch only under GOARCH=386 (thorough).', '5 C05')
+claim('C06', 'model_checking', 'explicit-state BFS over (string machines configuration x reference string state incl. pending surrogate) x 256 bytes; complete sweeps of all \\u units and surrogate pairs; oracle reference unescaper = encoding/json modulo UTF-8 sanitising',
+      'Every state of the fast path and of both escape machines is extended by every byte value with exact result bytes compared; the 65,536 code units and 2048x2048 surrogate pairs are enumerated completely.',
+      'String length in BFS bounded by state closure (saturating), run-length effects by the pumping pass; reference unescaper trusted where it agrees with encoding/json (checked on every node).', '5 C06')
+claim('C11', 'model_checking', 'explicit-state BFS over the product (skipValueFast configuration, skipValue configuration, reference PDA) x 256 bytes',
+      'Wherever the reference/SkipValue succeeds SkipValueFast must succeed with the same offset, checked on every product state x byte with nil/fresh/used buffers.',
+      'Nesting bound D; deep family at 5000/10000.', '5 C11')
+claim('C12', 'model_checking', 'explicit-state BFS over scalar-token states x 256 bytes x 10 Decode functions x {zero, sentinel} target',
+      'On every node of the scalar/null explorations every Decode function is run with two initial targets and compared with its reader plus the null/unchanged rule.',
+      'Reader correctness itself is C04/C05/C06/C13; containers are not targets of Decode functions.', '5 C12')
+claim('C13', 'model_checking', 'explicit-state BFS over whitespace-prefix and literal-machine states x 256 bytes; complete 256-entry table check; all Read families on every node',
+      'Every byte value after every whitespace-prefix state and in every state of the literal machines, against a table typed in from RFC 8259; type exclusivity of all Read families on every scalar node.',
+      'Whitespace run length saturates at 3 in the key (pumping covers longer runs).', '5 C13')
